@@ -10,6 +10,11 @@ Connection histories (`streams`): a real tcp / dtls server behind an in-memory l
 pair - two open connections with equal remote and different local addresses included -, judged by Spec/StreamServer and compared
 event by event with Model/StreamServer (registry keyed by the remote address only; Props/C10Streams).  Housekeeping histories
 (`hk`): a datagram server whose housekeeping pass the harness runs, meeting the peer's next datagram and Stop on one closed connection.
+Tokens (`discover tok`): discoveries with application-chosen tokens while responders and other peers send messages whose tokens are
+related to them but different (leading / trailing zero bytes, prefixes, the empty token): Props/C10Tokens (the tables keyed by
+a number derived from the token agree with tables keyed by the token on every history whose tokens the key separates; the real
+Token.Hash is evaluated on every line's tokens).  Failed connection attempts (`streams ... f ... f*<n>`): transient Accept errors,
+isolated and in series, up to 40 in one server's life: Props/C10Accept.
 """
 import itertools
 import json
@@ -18,10 +23,57 @@ import random
 
 from . import common
 
-MODULES = ["CoapVerif.Props.C10", "CoapVerif.Props.C10Wiring", "CoapVerif.Props.C10Streams"]
+MODULES = ["CoapVerif.Props.C10", "CoapVerif.Props.C10Wiring", "CoapVerif.Props.C10Streams", "CoapVerif.Props.C10Tokens",
+           "CoapVerif.Props.C10Accept"]
 GENERATED = ["OptionWiring.lean", "ConnRegistry.lean"]
 KINDS = [("concrete", "5"), ("concrete", "6"), ("concrete6", "5"), ("multicast", "5"), ("multicast", "9"), ("multicast6", "5"),
          ("unspecified", "0"), ("unspecified6", "0"), ("empty", "0")]
+
+
+def _hex(bs):
+    return "".join("%02x" % b for b in bs) if bs else "-"
+
+
+def token_lines(ctx, rng):
+    """`discover tok <D>:<S> ...`: every discovery token D comes with a DIFFERENT token S that a length-forgetting or
+    truncating key would confuse with it: D without its leading zero bytes, with zero bytes appended, a prefix / an
+    extension of D, the empty token, all-zero tokens of different lengths, 8-byte tokens (what Discover draws) that begin with
+    a zero byte.  All 2n tokens of a line are different."""
+    L = ["discover tok 00abcdef:abcdef 00:- 0000d15c:d15c a1b2:a1b200 c3c4:c3c4c5 e5f60708:00e5f60708 0011223344556677:11223344556677",
+         "discover tok 0000000000000000:- 00000000000000:000000 0000:00000000",
+         "discover tok 00:-",
+         "discover tok 00abcdef:abcdef"]
+    for _ in range(8 if ctx.tier == "thorough" else 3):
+        used, pairs = set(), []
+        for _ in range(rng.randrange(2, 7)):
+            t = [rng.randrange(1, 256)] + [rng.randrange(256) for _ in range(rng.randrange(0, 6))]
+            room = 8 - len(t)
+            kind = rng.choice(["lead", "lead", "leadrev", "trail", "trailrev", "ext", "pre", "lead8", "zeros"])
+            if kind == "lead":
+                d, s_ = [0] * rng.randrange(1, room + 1) + t, t
+            elif kind == "leadrev":
+                d, s_ = t, [0] * rng.randrange(1, room + 1) + t
+            elif kind == "trail":
+                d, s_ = t, t + [0] * rng.randrange(1, room + 1)
+            elif kind == "trailrev":
+                d, s_ = t + [0] * rng.randrange(1, room + 1), t
+            elif kind == "ext":
+                d, s_ = t, t + [rng.randrange(256)]
+            elif kind == "pre":
+                d, s_ = t + [rng.randrange(256)], t
+            elif kind == "lead8":
+                t = (t + [rng.randrange(256) for _ in range(7)])[:7]
+                d, s_ = [0] + t, t
+            else:
+                a, b = rng.sample(range(0, 9), 2)
+                d, s_ = [0] * max(a, 1), [0] * b
+            if d == s_ or not d or _hex(d) in used or _hex(s_) in used:
+                continue
+            used |= {_hex(d), _hex(s_)}
+            pairs.append(_hex(d) + ":" + _hex(s_))
+        if pairs:
+            L.append("discover tok " + " ".join(pairs))
+    return L
 
 
 def explore(ctx, art):
@@ -72,6 +124,8 @@ def explore(ctx, art):
     # request it finds by token (udp/server multicastRequests); the receiver must get one complete body per responder
     for n in ([1, 2, 4] if thorough else [2]):
         lines.append("discover %d bw" % n)
+    # discoveries whose tokens are related to, but different from, the tokens of other messages that arrive meanwhile
+    lines += token_lines(ctx, random.Random(ctx.seed + 2222))
     impl = common.run_test_harness(ctx, art["test"], "TestC10", lines, timeout=600)
     if impl is None or len(impl) != len(lines):
         return
@@ -95,6 +149,8 @@ def explore(ctx, art):
             continue
         if judge is not None and not judge[i].startswith("ok"):
             kind = l.split()[0] + ("-" + l.split()[1] if l.startswith("serve") else "")
+            if l.startswith("discover tok"):
+                kind = "discover-tok"
             if l.startswith("serve udpbacklog"):
                 # receive queue of a connection: 16 messages (+1 in the handler); a burst within it must never delay others
                 kind += ":over-queue" if int(l.split()[4]) > 17 else ":within-queue"
@@ -123,6 +179,13 @@ def stream_lines(ctx, rng):
          "streams tcp o1.1.1 o2.1.2 o3.1.3 h q1 q2 q3 s",
          "streams tcp o1.1.1 o2.2.1 o3.1.2 q1 q2 q3 h x3 q1 q2 x1 h o4.1.3 q4 h s",
          "streams dtls o1.1.1 o2.2.1 q1 h x2 h q1 o3.2.1 q3 h s"]
+    # connection attempts that FAIL inside Accept (EMFILE / ENFILE / ECONNABORTED: listener open, server running), far along
+    # one server's life: isolated incidents, each followed by a peer that connects, is served and hangs up (16 / 12 of them),
+    # and series of failures (24 + 16 = 40 failed Accepts in one life) between the requests of open connections
+    L.append("streams tcp " + " ".join("f o%d.%d.%d q%d x%d" % (i, 1 + i % 2, 1 + i % 3, i, i) for i in range(1, 17)) + " f o17.1.1 q17 h s")
+    L.append("streams dtls o1.2.2 " + " ".join("f o%d.1.%d q%d q1 x%d" % (i, 1 + i % 3, i, i) for i in range(2, 14)) + " f q1 h s")
+    L.append("streams tcp o1.1.1 f*24 q1 o2.2.1 f*16 q2 q1 h s")
+    L.append("streams dtls f*12 o1.1.1 q1 f*12 o2.1.2 q1 q2 x1 f q2 h s")
     for k in range(24 if ctx.tier == "thorough" else 8):
         t = "tcp" if k % 2 == 0 else "dtls"
         evs, opn, nid = [], {}, 0      # opn: id -> [remote, local]
@@ -140,8 +203,10 @@ def stream_lines(ctx, rng):
                 i = rng.choice(sorted(opn))
                 del opn[i]
                 evs.append("x%d" % i)
-            else:
+            elif c < 0.92:
                 evs.append("h")
+            else:
+                evs.append(rng.choice(["f", "f", "f*2", "f*5"]))
         for i in sorted(opn):
             evs.append("q%d" % i)
         evs += ["h", "s"]
@@ -221,6 +286,8 @@ def connection_histories(ctx, art):
             continue
         if not j.startswith("ok"):
             clause = "no-crash" if "crashed" in j else "serves-and-isolates"
+            if "stopped accepting" in j:
+                kind += ":accept-failures-series" if "a series of" in j else ":accept-failures-isolated"
             ctx.violations.append(common.Violation(clause, "C10:%s" % kind, "%s: observed `%s`: %s" % (l, o, j),
                                                    {"input": [l], "observed": o, "judge": j}))
         if m != "n/a" and m != o:
